@@ -241,11 +241,20 @@ func TestSelection(t *testing.T) {
 }
 
 func runConfirmation(proposed ref.Suite, answered ref.Suite, seed uint64) string {
+	return runConfirmationLens(proposed, answered, nil, seed)
+}
+
+// runConfirmationLens: lens, if not nil, are the payload-length bytes the BMC puts
+// into the three algorithm payloads of its response.
+func runConfirmationLens(proposed ref.Suite, answered ref.Suite, lens *[3]byte, seed uint64) string {
 	c := hx.Creds{User: "admin", Password: []byte("pw"), Priv: 4, Suite: proposed, Seed: seed}
 	w := hx.NewWorldFor(c, true)
 	w.BMC.OpenOverride = func(b *simbmc.BMC, rx *simbmc.Rx, req *ref.OpenReq, def *ref.OpenRsp) *ref.OpenRsp {
 		def.Status = 0
 		def.Algs = [3]byte{answered.Auth, answered.Integ, answered.Conf}
+		if lens != nil {
+			def.LensSet, def.Lens = true, *lens
+		}
 		return def
 	}
 	var sess *bmc.V2Session
@@ -258,6 +267,12 @@ func runConfirmation(proposed ref.Suite, answered ref.Suite, seed uint64) string
 		sess, err = w.T.NewV2Session(ctx, c.Opts())
 	}()
 	where := fmt.Sprintf("proposed %v, BMC answered %v", proposed, answered)
+	if lens != nil {
+		where += fmt.Sprintf(" with payload-length bytes %v", *lens)
+		if answered == proposed {
+			return "" // same algorithms under an odd length byte: either outcome is fine
+		}
+	}
 	if pan != nil {
 		return fmt.Sprintf("%s: library panicked: %v", where, pan)
 	}
@@ -313,6 +328,44 @@ func TestConfirmation(t *testing.T) {
 					}
 					if n%97 == 0 {
 						ev.Sample(map[string]any{"part": "confirmation", "proposed": p.String(), "answered": ans.String()})
+					}
+				}
+			}
+		}
+	}
+	// the same with payload-length bytes other than 8 in the response (0 is the
+	// wildcard spelling of a request): a different algorithm is a different
+	// algorithm whatever the length byte says
+	for _, p := range proposals {
+		for class := 0; class < 3; class++ {
+			for _, alg := range []uint8{0, 1, 2, 3, 4} {
+				for _, l := range []byte{0, 4, 7, 9, 0xff} {
+					n++
+					ans := p
+					switch class {
+					case 0:
+						ans.Auth = alg
+					case 1:
+						ans.Integ = alg
+					default:
+						ans.Conf = alg
+					}
+					for _, all := range []bool{false, true} {
+						lens := [3]byte{8, 8, 8}
+						lens[class] = l
+						if all {
+							lens = [3]byte{l, l, l}
+						}
+						msg := runConfirmationLens(p, ans, &lens, uint64(ev.Seed)*13+uint64(n))
+						ev.Eval()
+						if msg != "" {
+							ev.Violation("TestConfirmation", map[string]any{"proposed": p.String(), "answered": ans.String(), "lengthBytes": lens}, msg)
+							t.Fatalf("%s", msg)
+						}
+						if ans != p {
+							ev.NonTrivial(fmt.Sprintf("conf-len|%v|%v|%v", p, ans, lens))
+							ev.Label("confirmation:odd-payload-length-byte")
+						}
 					}
 				}
 			}
@@ -475,5 +528,5 @@ func TestDiscoveryFaults(t *testing.T) {
 }
 
 func TestCoverage(t *testing.T) {
-	ev.RequireLabels(t, 1, "selection-complete", "discovery-fault:later-index", "advertisement:several-algorithms-per-record", "advertisement:same-id-for-all-records", "confirmation-complete", "selection:first-preference-not-advertised", "sequence-of-opens", "confirmation:answered-differs", "confirmation:answered-equals")
+	ev.RequireLabels(t, 1, "selection-complete", "discovery-fault:later-index", "advertisement:several-algorithms-per-record", "advertisement:same-id-for-all-records", "confirmation-complete", "selection:first-preference-not-advertised", "sequence-of-opens", "confirmation:answered-differs", "confirmation:answered-equals", "confirmation:odd-payload-length-byte")
 }
